@@ -128,8 +128,10 @@ def ncf2lateral_boundary(ncffile, outpath):
             else:
                 raise KeyError(
                     'WEST, EAST, SOUTH, or NORTH: received %s' % ename)
-            np.array([buf, 1, ei, nbcell, 0, 0, 0, 0] + [icell, 0, 0, 0] *
-                     (nbcell - 2) + [0, 0, 0, 0, buf]
+            # exactly 4 words per boundary cell (a one-cell edge has one entry)
+            cells = ([0, 0, 0, 0] + [icell, 0, 0, 0] * (nbcell - 2) +
+                     [0, 0, 0, 0])[:nbcell * 4]
+            np.array([buf, 1, ei, nbcell] + cells + [buf]
                      ).astype('>i').tofile(outfile)
     for di, (d, t) in enumerate(ncffile.variables['TFLAG'][:, 0]):
         tempout = b''
